@@ -514,6 +514,8 @@ impl MemfsEntryIter {
                     items.push(path.mash(name));
                 }
             }
+            #[cfg(rivia_verif)]
+            crate::verif::dir_order(path, &mut items);
             Ok(MemfsEntryIter {
                 iter: Box::new(items.into_iter()),
                 entries,
